@@ -83,6 +83,7 @@ type c13Outcome struct {
 	incarnations  int
 	notifyUnres   []int
 	crashStates   []ArbitratorState // persisted state at each death
+	crashLast     []string          // last effect before each death
 	inconclusive  string
 	contradiction []uint64
 }
@@ -294,6 +295,10 @@ func c13Run(t *testing.T, sc *ccScenario, plan *c13Plan,
 		w.mu.Lock()
 		out.crashStates = append(out.crashStates,
 			c13PersistedState(w.effLog))
+		if len(w.effLog) > 0 {
+			out.crashLast = append(out.crashLast,
+				w.effLog[len(w.effLog)-1])
+		}
 		w.mu.Unlock()
 	}
 
@@ -392,7 +397,10 @@ func c13K1Class(sc *ccScenario, plan *c13Plan, msg string) bool {
 	return false
 }
 
-const c13KeyContractClosedRestart = "C13:restart-in-contract-closed-uses-chain-trigger"
+const (
+	c13KeyContractClosedRestart = "C13:restart-in-contract-closed-uses-chain-trigger"
+	c13KeyResolvedNotDeleted    = "C13:resolved-checkpoint-never-deleted-after-restart"
+)
 
 // c13PersistedState derives the arbitrator state on disk from the effect
 // log (the last committed state).
@@ -478,6 +486,21 @@ func c13GenPlan(rt *rapid.T, sc *ccScenario) *c13Plan {
 
 func c13Compare(base, run *c13Outcome, sc *ccScenario, plan *c13Plan,
 	st *vstats.Collector) error {
+
+	// Known finding: a stop between the final (resolved) checkpoint of a
+	// resolver and ResolveContract leaves the contract in the log for
+	// ever; the channel never becomes fully resolved.
+	for _, last := range run.crashLast {
+		if strings.HasPrefix(last, "Checkpoint(") &&
+			strings.HasSuffix(last, ",resolved)") &&
+			ccKnown(c13KeyResolvedNotDeleted) {
+
+			st.Known(c13KeyResolvedNotDeleted)
+			st.Count("excluded_known", 1)
+
+			return nil
+		}
+	}
 
 	// Known finding: a restart while the persisted state is
 	// StateContractClosed re-executes the stage with a chain trigger and
